@@ -1,51 +1,6 @@
-"""Leaf specs of property C05 (fold index arithmetic of inference/crossvalsets.py).
-
-The fold size in the source is written `np.floor(len(select) / k)` (no surrounding
-`int(...)`) and the number of groups of the groups-of-k generators `int(len(select) / k)`.
-Both are floor divisions of non-negative integers, but neither spelling is in the subset
-of the shared translator (it knows `int(np.floor(a / b))` only).  The translator is a
-shared, read-only file, so the two spellings are added here, from the outside, in a purely
-additive way (forms that were untranslatable before; nothing that translated changes).
-Wish recorded in notes/C05.md: move these two cases into harness/py2lean.py.
-"""
-import ast
-import sys
-
-
-def _translator_module():
-    for name in ('py2lean', '__main__'):
-        m = sys.modules.get(name)
-        if m is not None and hasattr(m, 'Tr') and hasattr(m, 'Untranslatable'):
-            return m
-    return None
-
-
-def _install():
-    m = _translator_module()
-    if m is None or getattr(m.Tr, '_c05_floor_div', False):
-        return
-    base_call = m.Tr.call
-
-    def call(self, e, env, want):
-        name = m.call_name(e)
-        if name in ('np.floor', 'int') and len(e.args) == 1 and not e.keywords \
-                and isinstance(e.args[0], ast.BinOp) and isinstance(e.args[0].op, ast.Div):
-            try:
-                a = self.expr(e.args[0].left, env, 'Nat')
-                b = self.expr(e.args[0].right, env, 'Nat')
-            except m.Untranslatable:
-                a = b = None
-            if a is not None and a is not m.NONE and b is not m.NONE \
-                    and a[1] == 'Nat' and b[1] == 'Nat':
-                # floor (and truncation) of a quotient of naturals = natural division
-                return (f'({a[0]} / {b[0]})', 'Nat')
-        return base_call(self, e, env, want)
-
-    m.Tr.call = call
-    m.Tr._c05_floor_div = True
-
-
-_install()
+"""Leaf specs of property C05 (fold index arithmetic of inference/crossvalsets.py, default
+fold counts of util/inference_util.py).  `np.floor(a / b)` and `int(a / b)` on naturals are
+translated natively by harness/py2lean.py (round 2; the local extension was removed)."""
 
 _F = 'inference/crossvalsets.py'
 _U = 'util/inference_util.py'
@@ -84,4 +39,10 @@ LEAVES = [
          params=_nat('n_pattern'), ret='Int'),
     dict(name='defaultKRdm', file=_U, func='default_k_rdm', kind='func',
          params=_nat('n_rdm'), ret='Int'),
+    # the same two functions on a real argument (bootstrap_crossval calls them on
+    # (1 - 1/e) * n, the expected number of distinct groups in a bootstrap sample)
+    dict(name='defaultKPatternReal', file=_U, func='default_k_pattern', kind='func',
+         params={'n_pattern': 'A'}, ret='Int'),
+    dict(name='defaultKRdmReal', file=_U, func='default_k_rdm', kind='func',
+         params={'n_rdm': 'A'}, ret='Int'),
 ]
